@@ -80,7 +80,13 @@ OPTIONS = {"mult_filter": {"filters": {"multiplicity_cut": (0, None)}},
            "intact_first": {}}
 
 
+KEY_EVENTS_SEL = "C07-events-selection-skips-count-checks"
+
+
 def ctor_options(case):
+    if case.get("opts") == "all_events":
+        # the selection of ALL events (first, last): the answer the property prescribes is the same as without it
+        return {"events": (0, max(0, len(case["doc"]["events"]) - 1))}
     return dict(OPTIONS[case["opts"]]) if case.get("opts") else {}
 
 
@@ -294,7 +300,7 @@ def correspondence(ctx, model_ok=True):
             cases.append(c)
             # the same damaged file opened with constructor options (oracle only; the model runs are the default-option ones)
             if name.startswith(("del", "dup")) or k % 5 == 0:
-                for on in OPTIONS:
+                for on in list(OPTIONS) + (["all_events"] if c["doc"]["events"] else []):
                     oc = dict(c); oc["opts"] = on
                     opt_cases.append(oc)
     obs = [observe(c, ctx, i) for i, c in enumerate(cases)]
@@ -345,6 +351,12 @@ def correspondence(ctx, model_ok=True):
         o = observe(cc, ctx, f"opt{nopt}")
         nopt += 1
         msg = oracle(cc, o, fulls[c["file"]])
+        if msg and c["opts"] == "all_events":
+            # known finding (known_findings.json): the events= path of the loaders has no per-event / event-count check
+            if sum(1 for f in out["failures"] if f.key == KEY_EVENTS_SEL) < 2:
+                out["failures"].append(Failure(cc, "property oracle (file opened with events=(first, last))", key=KEY_EVENTS_SEL,
+                                               on_impl=f"opened with {ctor_options(cc)}: {msg}"))
+            continue
         if msg:
             out["failures"].append(Failure(cc, "property oracle (file opened with constructor options)",
                                            on_impl=f"opened with option set '{c['opts']}' {OPTIONS[c['opts']]}: {msg}"))
